@@ -1135,5 +1135,349 @@ func evalChmod(args []string) string {
 
 var _ = sort.Ints
 
+// ---- generator ---------------------------------------------------------------------------------------------
+
+type c15Config struct{ role, flags string }
+
+var c15ConfigsMain = []c15Config{{"gmclient", "-"}, {"gmclient", "cert+ticket"}, {"gmclient", "resume"},
+	{"gmserver", "-"}, {"gmserver", "cert"}, {"gmserver", "resume"}}
+var c15ConfigsOther = []c15Config{{"gmclient", "cert"}, {"gmclient", "ticket"},
+	{"tlsclient", "-"}, {"tlsclient", "cert"}, {"tlsclient", "ticket"}, {"tlsclient", "resume"},
+	{"tlsserver", "-"}, {"tlsserver", "cert"}, {"tlsserver", "resume"},
+	{"autoserver", "gm"}, {"autoserver", "tls"}, {"autoserver", "gm+cert"}, {"autoserver", "tls+cert"},
+	{"autoserver", "gm+resume"}, {"autoserver", "tls+resume"}}
+
+// bytes every message of the type is at least long (length-field perturbations stay inside)
+var c15MinLen = map[string]int{"ch": 40, "sh": 40, "cert": 10, "skx": 8, "creq": 9, "shd": 4, "ckx": 8, "cv": 8, "nst": 10}
+
+var c15HsNamesSorted = func() []string {
+	var n []string
+	for k := range c15HsTypes {
+		n = append(n, k)
+	}
+	sort.Strings(n)
+	return n
+}()
+
+var c15RecEvents = []string{"ccs", "badccs", "appdata", "warn", "fatal", "closenotify", "badalert", "empty", "unkrec", "bigrec",
+	"bigmsg", "malformed"}
+
+type c15Gen struct {
+	role   string
+	client bool
+	flat   []string
+	flight []int // flight number of each item
+	ccsIdx int
+}
+
+func newC15Gen(cf c15Config) *c15Gen {
+	fl, _ := c15Flags(cf.flags)
+	g := &c15Gen{role: cf.role, client: strings.HasSuffix(cf.role, "client"), ccsIdx: -1}
+	for k, f := range c15Flight(cf.role, fl) {
+		for _, it := range f {
+			if it == "ccs" {
+				g.ccsIdx = len(g.flat)
+			}
+			g.flat = append(g.flat, it)
+			g.flight = append(g.flight, k)
+		}
+	}
+	return g
+}
+
+func (g *c15Gen) isHs(i int) bool { return i < len(g.flat) && g.flat[i] != "ccs" && g.flat[i] != "fin" }
+
+// single edits whose outcome is decided by message order alone (see the constraints in the comments)
+func (g *c15Gen) structural() []string {
+	var out []string
+	for i := range g.flat {
+		out = append(out, fmt.Sprintf("drop:%d", i), fmt.Sprintf("dup:%d", i), fmt.Sprintf("eof:%d", i))
+		if i+1 < len(g.flat) && g.flight[i] == g.flight[i+1] { // both items pass the man in the middle together
+			out = append(out, fmt.Sprintf("swap:%d", i))
+		}
+	}
+	return out
+}
+
+func (g *c15Gen) framing() []string {
+	var out []string
+	for i := range g.flat {
+		if !g.isHs(i) {
+			continue
+		}
+		out = append(out, fmt.Sprintf("split:%d:%d", i, 1+i%3))
+		if g.isHs(i+1) && g.flight[i] == g.flight[i+1] {
+			out = append(out, fmt.Sprintf("join:%d", i))
+		}
+		if i+1 == g.ccsIdx { // stray bytes are only left alone by a ChangeCipherSpec
+			out = append(out, fmt.Sprintf("trail:%d", i))
+		}
+	}
+	return out
+}
+
+// a retyped or inserted message must not be of a type the phase could accept with this body: then the outcome
+// would hinge on what the parser makes of foreign bytes
+func (g *c15Gen) retypes() []string {
+	var out []string
+	for i, it := range g.flat {
+		if !g.isHs(i) {
+			continue
+		}
+		for _, t := range c15HsNamesSorted {
+			if t == it {
+				continue
+			}
+			opt := map[string]bool{"status": true, "skx": true, "creq": true, "shd": true}
+			if g.client && opt[it] && opt[t] {
+				continue
+			}
+			out = append(out, fmt.Sprintf("retype:%d:%s", i, t))
+		}
+	}
+	return out
+}
+
+func (g *c15Gen) inserts() []string {
+	var out []string
+	for i, it := range g.flat {
+		for _, t := range c15HsNamesSorted {
+			if t == it { // a second message of the awaited type with a made-up body: its fate is decided by its contents
+				continue
+			}
+			out = append(out, fmt.Sprintf("ins:%d:%s", i, t))
+		}
+		for _, e := range c15RecEvents {
+			out = append(out, fmt.Sprintf("ins:%d:%s", i, e))
+		}
+		for _, n := range []int{2, 5, 6, 7} {
+			out = append(out, fmt.Sprintf("ins:%d:warn:%d", i, n))
+		}
+		out = append(out, fmt.Sprintf("ins:%d:empty:%d", i, 40))
+		if it == "ccs" || it == "fin" {
+			out = append(out, fmt.Sprintf("ins:%d:frag", i))
+		}
+	}
+	return out
+}
+
+func (g *c15Gen) byteEdits(r *rng, all bool) []string {
+	var out []string
+	for i, it := range g.flat {
+		if !g.isHs(i) {
+			continue
+		}
+		min := c15MinLen[it]
+		if it != "shd" { // an empty body cannot be cut
+			for _, k := range []int{1, 2, 3, 1000000} {
+				out = append(out, fmt.Sprintf("trunc:%d:%d", i, k), fmt.Sprintf("trunc:%d:%d:fix", i, k))
+			}
+		}
+		for _, d := range []int{1, -1, 2, 255, -200} {
+			out = append(out, fmt.Sprintf("len:%d:1:3:%d", i, d), fmt.Sprintf("len:%d:3:1:%d", i, d))
+		}
+		out = append(out, fmt.Sprintf("len:%d:1:1:1", i), fmt.Sprintf("len:%d:2:1:1", i)) // > 64 KiB
+		n := 4
+		if all {
+			n = min - 4
+		}
+		for k := 0; k < n && min > 5; k++ { // inner 8- and 16-bit length / count fields
+			off := 4 + r.intn(min-5)
+			if all {
+				off = 4 + k
+				if off+2 > min {
+					break
+				}
+			}
+			out = append(out, fmt.Sprintf("len:%d:%d:%d:%d", i, off, 1+r.intn(2), r.pick([]int{1, -1, 3, 100, -100})))
+		}
+	}
+	return out
+}
+
+func c15EditIdx(e string) (string, int) {
+	f := strings.Split(e, ":")
+	i, _ := strconv.Atoi(f[1])
+	return f[0], i
+}
+
+// may the two edits share a script?  (the man in the middle and the driver agree only on combinations whose
+// order of application is spelled out)
+func (g *c15Gen) compatible(a, b string) bool {
+	oa, ia := c15EditIdx(a)
+	ob, ib := c15EditIdx(b)
+	touch := func(op string, i int) map[int]bool {
+		m := map[int]bool{i: true}
+		if op == "swap" || op == "join" || op == "trail" {
+			m[i+1] = true
+		}
+		return m
+	}
+	isIns := func(op string) bool { return op == "ins" }
+	if isIns(oa) && isIns(ob) {
+		return true
+	}
+	ta, tb := touch(oa, ia), touch(ob, ib)
+	if !isIns(oa) && !isIns(ob) {
+		for k := range ta {
+			if tb[k] {
+				return false
+			}
+		}
+	}
+	// an inserted ChangeCipherSpec next to a removed or displaced one is the honest stream again
+	for _, p := range [][2]string{{a, b}, {b, a}} {
+		if strings.HasSuffix(p[0], ":ccs") && strings.HasPrefix(p[0], "ins:") {
+			_, j := c15EditIdx(p[1])
+			op, _ := c15EditIdx(p[1])
+			if !isIns(op) && (j == g.ccsIdx || (op == "swap" && j+1 == g.ccsIdx)) {
+				return false
+			}
+		}
+	}
+	// inserted handshake bytes after stray ones
+	for _, p := range [][3]interface{}{{oa, ia, b}, {ob, ib, a}} {
+		if p[0].(string) == "trail" && strings.HasPrefix(p[2].(string), fmt.Sprintf("ins:%d:", p[1].(int)+1)) {
+			return false
+		}
+	}
+	return true
+}
+
 func genC15(r *rng, tier string, emit func(string)) {
+	thorough := tier == "thorough"
+	all := append(append([]c15Config{}, c15ConfigsMain...), c15ConfigsOther...)
+	sample := func(xs []string, n int) []string {
+		if thorough || len(xs) <= n {
+			return xs
+		}
+		var o []string
+		for k := 0; k < n; k++ {
+			o = append(o, xs[r.intn(len(xs))])
+		}
+		return o
+	}
+	for ci, cf := range all {
+		g := newC15Gen(cf)
+		main := ci < len(c15ConfigsMain)
+		op := func(script string) { emit(fmt.Sprintf("hsseq %s %s %s", cf.role, cf.flags, script)) }
+		emit(fmt.Sprintf("hsflight %s %s", cf.role, cf.flags))
+		op("-")
+		for _, e := range g.structural() {
+			op(e)
+		}
+		q := 4
+		if main {
+			q = 12
+		}
+		for _, e := range sample(g.framing(), q/2) {
+			op(e)
+		}
+		for _, e := range sample(g.retypes(), q) {
+			op(e)
+		}
+		for _, e := range sample(g.inserts(), 2*q) {
+			op(e)
+		}
+		for _, e := range sample(g.byteEdits(r, thorough), q) {
+			op(e)
+		}
+		// E's own stream ends after every record
+		fl, _ := c15Flags(cf.flags)
+		peer := map[string]string{"gmclient": "gmserver", "gmserver": "gmclient", "tlsclient": "tlsserver", "tlsserver": "tlsclient", "autoserver": "gmclient"}[cf.role]
+		total := len(c15Flat(c15Flight(peer, fl)))
+		for k := 0; k <= total; k++ {
+			if thorough || main || k%2 == 0 {
+				emit(fmt.Sprintf("hsout %s %s %d", cf.role, cf.flags, k))
+			}
+		}
+		// several edits at once
+		pool := append(append(append(g.structural(), g.framing()...), g.retypes()...), g.inserts()...)
+		if thorough && main { // all pairs of order-level edits and the record-level insertions
+			var small []string
+			small = append(small, g.structural()...)
+			small = append(small, g.framing()...)
+			for i := range g.flat {
+				for _, e := range []string{"ccs", "appdata", "warn", "warn:6", "fatal", "empty", "shd", "hreq", "unk", "malformed"} {
+					small = append(small, fmt.Sprintf("ins:%d:%s", i, e))
+				}
+			}
+			for x := 0; x < len(small); x++ {
+				for y := x + 1; y < len(small); y++ {
+					if g.compatible(small[x], small[y]) {
+						op(small[x] + "," + small[y])
+					}
+				}
+			}
+		}
+		n := 3
+		if main {
+			n = 10
+		}
+		if thorough {
+			n *= 20
+		}
+		for k := 0; k < n; k++ {
+			var es []string
+			want := 2 + r.intn(3)
+			for tries := 0; len(es) < want && tries < 40; tries++ {
+				c := pool[r.intn(len(pool))]
+				ok := true
+				for _, e := range es {
+					if !g.compatible(e, c) || e == c {
+						ok = false
+					}
+				}
+				if ok {
+					es = append(es, c)
+				}
+			}
+			op(strings.Join(es, ","))
+		}
+	}
+	// ClientHello fields
+	combos := [][2]string{{"gm", "gm"}, {"auto", "gm"}, {"auto", "tls"}, {"tls", "tls"}, {"tls", "gm"}, {"gm", "tls"}}
+	bounds := []int{0x0000, 0x0001, 0x00ff, 0x0100, 0x0101, 0x0102, 0x0103, 0x01ff, 0x0200, 0x0201, 0x02ff, 0x0300, 0x0301, 0x0302,
+		0x0303, 0x0304, 0x0305, 0x03ff, 0x0400, 0x0401, 0x0fff, 0x1000, 0x8000, 0xffff}
+	for ci, cb := range combos {
+		seen := map[int]bool{}
+		vers := func(v int) {
+			if !seen[v] {
+				seen[v] = true
+				emit(fmt.Sprintf("chmod %s %s vers:%04x", cb[0], cb[1], v))
+			}
+		}
+		for _, v := range bounds {
+			vers(v)
+		}
+		if thorough && ci < 4 {
+			for v := 0; v <= 0x0400; v++ {
+				vers(v)
+			}
+		} else {
+			for k := 0; k < 10; k++ {
+				vers(r.intn(0x0401))
+			}
+		}
+		ids := []int{0xe013, 0xe053, 0xe011, 0xe051, 0xc02f, 0xc030, 0xc014, 0x009c, 0x002f, 0x000a, 0xc02b, 0xc009, 0x0005, 0xc011, 0xcca8,
+			0x0000, 0x00ff, 0x1301, 0xe0ff, 0xfefe, 0xffff, 0x5600, 0xc013, 0xc027}
+		ns := 10
+		if thorough {
+			ns = 150
+		}
+		emit(fmt.Sprintf("chmod %s %s suites:-", cb[0], cb[1]))
+		for k := 0; k < ns; k++ {
+			var l []string
+			for j := 1 + r.intn(4); j > 0; j-- {
+				l = append(l, fmt.Sprintf("%04x", ids[r.intn(len(ids))]))
+			}
+			if strings.Join(l, ".") == "e013.e053.e011.e051" {
+				continue
+			}
+			emit(fmt.Sprintf("chmod %s %s suites:%s", cb[0], cb[1], strings.Join(l, ".")))
+		}
+		for _, c := range []string{"-", "01", "01.00", "00.01", "ff", "01.02.03", "00.00"} {
+			emit(fmt.Sprintf("chmod %s %s comp:%s", cb[0], cb[1], c))
+		}
+	}
 }
